@@ -209,7 +209,19 @@ pub fn variants() -> Vec<&'static Variant> {
     vec![&V, &VT, &VS]
 }
 
+fn small_programs() -> &'static Vec<Case> {
+    static S: std::sync::OnceLock<Vec<Case>> = std::sync::OnceLock::new();
+    S.get_or_init(|| {
+        super::c01::small_slice(true)
+            .iter()
+            .map(|c| Case { x: json!({ "alpha": [0x61, 0x62] }), ..c.clone() })
+            .collect()
+    })
+}
+
 pub fn run(ctx: &Ctx) -> i32 {
+    // bounded-exhaustive: every pattern of the small grammar of C01, validated on every haystack in {a,b}^<=4
+    ctx.run_list(&V, small_programs());
     match ctx.tier {
         Tier::Quick => {
             ctx.run_variant(&V, ctx.scale(24_000, 0));
@@ -227,7 +239,7 @@ pub fn run(ctx: &Ctx) -> i32 {
     }
     ctx.finish(
         "translation_validation",
-        "generated programs whose beginnings vary (alternations of literals with shared/unshared prefixes and 1-4 byte lead bytes, optional first terms, lookarounds first, case-fold sets with different lead bytes, inverted brackets, ^ under global/scoped m); each compiled program is compared with the same program with StartPredicate::Arbitrary (hook) on EVERY haystack of length <= L over its relevant alphabet from EVERY start, UTF-8 and ASCII entry points; plus a scanner generator (16-80 char filler, planted occurrences, buffer re-sliced at all 8 alignments). Non-trivial = derived predicate is not Arbitrary and some haystack matched.",
+        "(bounded-exhaustive) all 141k patterns of the small grammar of C01, each validated on ALL haystacks in {a,b}^<=4 from every start; plus generated programs whose beginnings vary (alternations of literals with shared/unshared prefixes and 1-4 byte lead bytes, optional first terms, lookarounds first, case-fold sets with different lead bytes, inverted brackets, ^ under global/scoped m); each compiled program is compared with the same program with StartPredicate::Arbitrary (hook) on EVERY haystack of length <= L over its relevant alphabet from EVERY start, UTF-8 and ASCII entry points; plus a scanner generator (16-80 char filler, planted occurrences, buffer re-sliced at all 8 alignments). Non-trivial = derived predicate is not Arbitrary and some haystack matched.",
         &["hook: Regex::verif_with_arbitrary_start_predicate clones the program with the prefilter removed", "bounded equivalence only", "predicate kind is reported, never asserted"],
     )
 }
